@@ -1,0 +1,63 @@
+// Copyright (c) 2026 10X Genomics, Inc. All rights reserved.
+
+//go:build verif
+
+package core
+
+import "strings"
+
+// VerifJobScriptIn is everything RemoteJobManager.jobScript reads, as plain
+// data, for the external verification harness (C18).  MRO_ACCOUNT is read
+// from the process environment by jobScript itself.
+type VerifJobScriptIn struct {
+	Template      string
+	ThreadEnvs    []string
+	ThreadsPerJob int
+	MemGBPerJob   int
+	ExtraVmemGB   int
+	MemGBPerCore  int
+	AlwaysVmem    bool
+	Mappings      map[string]string // jobResourcesMappings (MRO_JOBRESOURCES)
+	ResOpt        string            // jobmodes.<mode>.resopt of config.json
+
+	ShellCmd     string
+	Argv         []string
+	Envs         map[string]string
+	MetadataPath string
+	FilesPath    string
+	Fqname       string
+	ShellName    string
+	Res          JobResources
+}
+
+// VerifJobScriptFull renders a job script exactly as sendJob does, from a
+// job manager configured as verifyJobManager would configure it for the
+// given template text.  It also returns the stdout/stderr paths used.
+func VerifJobScriptFull(in *VerifJobScriptIn) (script, stdout, stderr string) {
+	mappings := in.Mappings
+	if mappings == nil {
+		mappings = map[string]string{}
+	}
+	jm := &RemoteJobManager{
+		jobMode:              "verif",
+		jobResourcesMappings: mappings,
+		memGBPerCore:         in.MemGBPerCore,
+		config: jobManagerConfig{
+			jobSettings: &JobManagerSettings{
+				ThreadsPerJob: in.ThreadsPerJob,
+				MemGBPerJob:   in.MemGBPerJob,
+				ExtraVmemGB:   in.ExtraVmemGB,
+				ThreadEnvs:    in.ThreadEnvs,
+			},
+			jobTemplate:      in.Template,
+			jobResourcesOpt:  in.ResOpt,
+			alwaysVmem:       in.AlwaysVmem,
+			threadingEnabled: strings.Contains(in.Template, "__MRO_THREADS__"),
+		},
+	}
+	md := NewMetadata(in.Fqname, in.MetadataPath)
+	md.curFilesPath = in.FilesPath
+	res := in.Res
+	return jm.jobScript(in.ShellCmd, in.Argv, in.Envs, md, &res, in.Fqname, in.ShellName),
+		md.MetadataFilePath(StdOut), md.MetadataFilePath(StdErr)
+}
